@@ -1197,3 +1197,10 @@ def _swap_arms(m):
 
 for _i, _m in enumerate(_MODS + [FU]):
     VARIANTS.append(V(f'G-arm-{_i:02d}', 'E', ALL, _m, None, r'\A.*\Z', _swap_arms, flags=re.S, note='every if/else turned around under not'))
+
+VARIANTS += [
+    V('C03-M34', 'M', ('C03',), ST, 'Header.__iter__', r"(\n(\s+))yield v\n\s+n \+= 1\n\s+if n >= nn:\n(?:\s+#[^\n]*\n)*\s+break\n", r"\1if n >= nn:\1    break\1yield v\1n += 1\n", ('C03-6',), note='D24 shape: the limit is tested after the next pull'),
+    V('C03-M35', 'M', ('C03',), ST, 'Stream.filter_exceptions', r"\n\s+if isinstance\(drop_exc_types, list\):\n\s+drop_exc_types = tuple\(drop_exc_types\)", "", ('C03-10',), note='D25 shape'),
+    V('C03-M36', 'M', ('C03',), ST, 'Stream.peek', r"\n\s+elif isinstance\(exc_types, list\):\n\s+exc_types = tuple\(exc_types\)", "", ('C03-10',), note='D25 shape'),
+    V('C03-E34', 'E', ALL, ST, 'Stream.filter_exceptions', r"if isinstance\(drop_exc_types, list\):\n(\s+)drop_exc_types = tuple\(drop_exc_types\)", r"if drop_exc_types is not None and not isinstance(drop_exc_types, type):\n\1drop_exc_types = tuple(drop_exc_types)", note='another guard for the same normalisation'),
+]
